@@ -15,7 +15,9 @@
 EXTENDS PathLookupOps, TLC
 
 CONSTANTS CoreCfg,     \* "two": ISD 1 has core ASes c1, c2; "one": only c1
-          MaxStore, MaxDead, MaxRev   \* bounds on registered / expired / revoked segments
+          MaxStore, MaxDead, MaxRev,  \* bounds on registered / expired / revoked segments
+          MaxBad, MaxExtra            \* remote fetch: unverifiable segments / segments for other destinations
+                                      \* a path server may add to its replies (0, 0: everything is local)
 
 A(isd, as) == [isd |-> isd, as |-> as]
 Cores == IF CoreCfg = "two" THEN {A(1, "c1"), A(1, "c2"), A(2, "d1")} ELSE {A(1, "c1"), A(2, "d1")}
@@ -27,11 +29,11 @@ Dsts == ASes \cup {A(1, "0"), A(2, "0")}
 Universe == {[t |-> "down", first |-> p[1], last |-> p[2]] : p \in {q \in Cores \X Leaves : q[1].isd = q[2].isd}}
        \cup {[t |-> "core", first |-> p[1], last |-> p[2]] : p \in {q \in Cores \X Cores : q[1] # q[2]}}
 
-VARIABLES local, dst, store, dead, revoked, result, reqs
-vars == <<local, dst, store, dead, revoked, result, reqs>>
+VARIABLES local, dst, store, dead, revoked, result, reqs, bad
+vars == <<local, dst, store, dead, revoked, result, reqs, bad>>
 
 Init == /\ local \in ASes /\ dst \in Dsts
-        /\ store = {} /\ dead = {} /\ revoked = {} /\ result = {} /\ reqs = {}
+        /\ store = {} /\ dead = {} /\ revoked = {} /\ result = {} /\ reqs = {} /\ bad = {}
 
 Match(pat, ia) == IF IsWild(pat) THEN pat.isd = ia.isd ELSE pat = ia
 
@@ -60,12 +62,18 @@ StartOf(p) == LET s == p[1] IN IF s.t = "down" THEN s.first ELSE s.last
 
 Lookup ==
     /\ store = {} /\ result = {}
-    /\ \E S \in SUBSET Universe : \E D \in SUBSET S : \E V \in SUBSET S :
+    /\ \E S \in SUBSET Universe : \E D \in SUBSET S : \E V \in SUBSET S : \E U \in SUBSET S : \E X \in SUBSET S :
          /\ S # {} /\ Cardinality(S) <= MaxStore /\ Cardinality(D) <= MaxDead /\ Cardinality(V) <= MaxRev
-         /\ store' = S /\ dead' = D /\ revoked' = V
+         /\ Cardinality(U) <= MaxBad /\ Cardinality(X) <= MaxExtra
+         /\ store' = S /\ dead' = D /\ revoked' = V /\ bad' = U
          /\ IF dst = local THEN result' = {<<>>} /\ reqs' = {}
             ELSE LET rq == SplitRequests(local, local \in Cores, dst, Cores)
-                     got == UNION {Resolve(r, S) : r \in rq}
+                     \* up segments are local; core and down requests go to a path server whose reply holds
+                     \* the matching segments, possibly segments for other destinations (X) and unverifiable
+                     \* ones (U); the reply handler verifies, stores and hands on only the verified ones
+                     Answer(r) == IF r.t = "up" \/ (MaxBad = 0 /\ MaxExtra = 0) THEN Resolve(r, S)
+                                  ELSE (Resolve(r, S) \cup {x \in X : x.t = r.t}) \ U
+                     got == UNION {Answer(r) : r \in rq}
                      ups == {s \in got : s.t = "up"}
                      cores == {s \in got : s.t = "core"}
                      downs == {s \in got : s.t = "down"}
@@ -88,9 +96,11 @@ LocalEmpty == (store # {} /\ dst = local) => result = {<<>>}
 Sufficient ==
     (store # {} /\ dst # local /\ ~IsWild(dst)) =>
         LET ups == {[t |-> "up", first |-> s.first, last |-> s.last] : s \in {x \in store : x.t = "down"}}
-            cores == {s \in store : s.t = "core"}
-            downs == {s \in store : s.t = "down"}
+            cores == {s \in store \ bad : s.t = "core"}
+            downs == {s \in store \ bad : s.t = "down"}
         IN {p \in Paths(local, dst, ups, cores, downs) : Live(p) /\ Clean(p)} = result
+\* nothing unverifiable reaches a path handed out (remote fetch)
+OnlyVerified == \A p \in result : \A i \in DOMAIN p : p[i].t = "up" \/ p[i] \notin bad
 \* wildcard lookups reach every core AS of the ISD that one segment (own ISD) / the requested core
 \* segments (other ISD) lead to
 =============================================================================
